@@ -892,6 +892,14 @@ void lp_polynomial_psc(lp_polynomial_t** psc, const lp_polynomial_t* A, const lp
 
   if (A_deg < B_deg) {
     lp_polynomial_psc(psc, B, A);
+    // Exchanging the arguments exchanges blocks of rows of the Sylvester matrices:
+    // S_k(A, B) = (-1)^((deg(A) - k)*(deg(B) - k)) * S_k(B, A)
+    size_t k;
+    for (k = 0; k <= A_deg; ++ k) {
+      if (((A_deg - k) * (B_deg - k)) % 2) {
+        lp_polynomial_neg(psc[k], psc[k]);
+      }
+    }
     return;
   }
 
@@ -958,6 +966,14 @@ void lp_polynomial_subres(lp_polynomial_t** subres, const lp_polynomial_t* A, co
 
   if (A_deg < B_deg) {
     lp_polynomial_subres(subres, B, A);
+    // Exchanging the arguments exchanges blocks of rows of the Sylvester matrices:
+    // S_k(A, B) = (-1)^((deg(A) - k)*(deg(B) - k)) * S_k(B, A)
+    size_t k;
+    for (k = 0; k <= A_deg; ++ k) {
+      if (((A_deg - k) * (B_deg - k)) % 2) {
+        lp_polynomial_neg(subres[k], subres[k]);
+      }
+    }
     return;
   }
 
